@@ -157,6 +157,7 @@ def run_log(case):
             out.fail('log:variable-list', '%s: configuration holds %r' % (desc, [(v.name, v.fetch_as) for v in lc.variables]))
         # ---------------- history
         bid = lc.id
+        bids = [bid]
         ts_counter = [case.get('ts0', 0)]
         delivered = []
         try:
@@ -174,6 +175,16 @@ def run_log(case):
                     lc.stop()
                 elif k == 'delete':
                     lc.delete()
+                elif k == 'add':
+                    # the same configuration used for another session on the same connection (after it was deleted)
+                    if bid not in dev.blocks and not lc.added:
+                        cf.log.add_config(lc)
+                        bid = lc.id
+                        bids.append(bid)
+                        out.feat('readded-same-connection')
+                        again = [(v.name, v.fetch_as, v.stored_as, v.type) for v in lc.variables]
+                        if again != first_vars:
+                            out.fail('log:readd-changes-variables', '%s: %d variables before, %d after adding again: %r' % (desc, len(first_vars), len(again), [a[0] for a in again]))
                 elif k == 'emit':
                     s.sleep(0.05)
                     blk = dev.blocks.get(bid)
@@ -216,8 +227,8 @@ def run_log(case):
         for seq in seqs:
             items = []
             for m in seq:
-                if m[1] != bid:
-                    out.fail('log:block-id', '%s: message for block %d, config id %d' % (desc, m[1], bid))
+                if m[1] not in bids:
+                    out.fail('log:block-id', '%s: message for block %d, config ids %r' % (desc, m[1], bids))
                 body = m[2:]
                 step_ = 3 if v2 else 2
                 if (m[0] in (6, 7)) != v2:
@@ -402,7 +413,7 @@ def log_case(draw):
                               'fetch': draw(st.sampled_from([None, None, None, 1, 2, 3, 4, 5, 6, 7, 8]))})
     hist = [{'op': 'start', 'gap': 0.2}]
     for _ in range(draw(st.integers(0, 6))):
-        hist.append({'op': draw(st.sampled_from(['emit', 'emit', 'emit', 'stop', 'start', 'delete'])), 'seed': draw(st.integers(0, 200)),
+        hist.append({'op': draw(st.sampled_from(['emit', 'emit', 'emit', 'stop', 'start', 'start', 'delete', 'add'])), 'seed': draw(st.integers(0, 200)),
                      'extreme': draw(st.booleans()), 'gap': draw(st.sampled_from([0.2, 0.2, 0.0, 0.01]))})
     period = draw(_period) if shape != 'split' else draw(st.sampled_from([10, 100, 2540]))
     return {'version': draw(st.sampled_from([10, 10, 4, 3])), 'toc_types': toc_types, 'vars': vars_, 'period_ms': period, 'history': hist,
@@ -426,6 +437,11 @@ def directed_cases(tier):
     yield dict(base, vars=[{'kind': 'toc', 'idx': i, 'fetch': [None, 8, 7, 1][i % 4]} for i in range(10)], history=hist)
     for v in (10, 4, 3):
         yield dict(base, version=v, vars=[{'kind': 'toc', 'idx': i, 'fetch': 1} for i in range(10)], history=hist, toc_types=[1] * 10)
+    # two sessions with one configuration on one connection
+    hist2 = [{'op': 'start', 'gap': 0.2}, {'op': 'emit', 'seed': 3, 'extreme': False, 'gap': 0.2}, {'op': 'stop', 'gap': 0.2}, {'op': 'delete', 'gap': 0.2},
+             {'op': 'add', 'gap': 0.2}, {'op': 'start', 'gap': 0.2}, {'op': 'emit', 'seed': 5, 'extreme': False, 'gap': 0.2}, {'op': 'emit', 'seed': 6, 'extreme': True, 'gap': 0.2},
+             {'op': 'delete', 'gap': 0.2}, {'op': 'add', 'gap': 0.2}, {'op': 'start', 'gap': 0.2}, {'op': 'emit', 'seed': 7, 'extreme': False, 'gap': 0.2}]
+    yield dict(base, vars=[{'kind': 'toc', 'idx': i, 'fetch': [None, 8, 7, 1][i % 4]} for i in range(5)], history=hist2)
 
 
 def subchecks(tier):
